@@ -106,16 +106,14 @@ fn emit(run: &mut Run, stream: &str, c: &Case) {
         }
         if let (Op::Snap(s), Res::Snap(rx, _)) = (op, &r) {
             if *s == B {
-                // PROPERTY (3): receiver state. `rtcp_index` of a receive context is write-only (never read
-                // for a decision) and GCM bumps it before authentication — compared for the other profiles.
+                // PROPERTY (3): receiver cryptographic state — every field, every profile
                 if let Some(Res::Snap(arx, _)) = res.iter().rev().find(|x| matches!(x, Res::Snap(..))) {
-                    let strip = |v: &Vec<(u32, u32, Option<u16>, u32)>, idx: bool| v.iter().map(|(a, b, c, d)| (*a, *b, *c, if idx { *d } else { 0 })).collect::<Vec<_>>();
-                    let gcm = w.prof[B] == "gcm";
-                    if strip(arx, false) != strip(rx, false) {
+                    let strip = |v: &Vec<(u32, u32, Option<u16>, u32)>| v.iter().map(|(a, b, c, _)| (*a, *b, *c)).collect::<Vec<_>>();
+                    if strip(arx) != strip(rx) {
                         run.fail(&format!("state-differs:{}:rollover-or-table:after-{last_forged}", w.prof[B]), &case, &format!("A {:?} / B {:?}", arx, rx));
-                    } else if !gcm && strip(arx, true) != strip(rx, true) {
+                    } else if arx != rx {
                         run.fail(&format!("state-differs:{}:srtcp-index:after-{last_forged}", w.prof[B]), &case, &format!("A {:?} / B {:?}", arx, rx));
-                    } else if gcm && strip(arx, true) != strip(rx, true) { run.count("gcm_rtcp_index_bumped_by_forgery(non-observable)"); }
+                    }
                 }
             }
         }
